@@ -98,17 +98,92 @@ fn code_of(canon: &str) -> String {
 
 const HEADERS_GET: &str = "01080000d1d7500161c1";
 
-fn server_case(ops: &str) -> String {
-    let w = World::new(Side::Server, 100, 100, None);
+/// Environment variants selected by the family suffix (`goaway.g3`, `cgoaway.ul`, ...); the model is the same for all.
+///   g  builder default configuration (grease ON)          3  the peer lets us open only 3 uni streams
+///   u  the peer first opens a uni stream whose type byte has not arrived
+///   q  the peer's QPACK encoder/decoder streams arrive before its control stream
+///   t  the control stream's type byte, frame header and payload arrive in separate chunks
+///   l  the peer's control stream arrives late: just before its first GOAWAY
+#[derive(Clone, Copy, Default)]
+struct Env {
+    grease: bool,
+    uni3: bool,
+    unknown_first: bool,
+    qpack_first: bool,
+    split_type: bool,
+    late_ctl: bool,
+}
+fn parse_env(fam: &str) -> Env {
+    let mut e = Env::default();
+    if let Some(i) = fam.find('.') {
+        for c in fam[i + 1..].chars() {
+            match c {
+                'g' => e.grease = true,
+                '3' => e.uni3 = true,
+                'u' => e.unknown_first = true,
+                'q' => e.qpack_first = true,
+                't' => e.split_type = true,
+                'l' => e.late_ctl = true,
+                _ => panic!("unknown environment letter"),
+            }
+        }
+    }
+    e
+}
+/// streams of the peer other than its control stream (base = 2 for a client peer, 3 for a server peer)
+fn peer_other_streams(w: &Shared, base: u64, e: &Env) {
+    if e.unknown_first {
+        assert!(apply_event(w, &format!("U{}", base + 4)));
+    }
+    if e.qpack_first {
+        assert!(apply_event(w, &format!("U{}", base + 8)));
+        assert!(apply_event(w, &format!("{}:c:02", base + 8)));
+        assert!(apply_event(w, &format!("U{}", base + 12)));
+        assert!(apply_event(w, &format!("{}:c:03", base + 12)));
+    }
+}
+fn peer_control_stream(w: &Shared, base: u64, e: &Env) {
+    assert!(apply_event(w, &format!("U{}", base)));
+    if e.split_type {
+        for c in ["00", "04", "00"] {
+            assert!(apply_event(w, &format!("{}:c:{}", base, c)));
+        }
+    } else {
+        assert!(apply_event(w, &format!("{}:c:000400", base)));
+    }
+}
+/// `err:<code><variant letter>/close:<code passed to the transport's close() during this op, or ->`
+fn err_text(canon: &str, w: &Shared, log0: usize) -> String {
+    let mut it = canon.split(':');
+    let _ = it.next();
+    let code = it.next().unwrap_or("?");
+    let variant = it.next().and_then(|v| v.chars().next()).unwrap_or('?');
+    let g = w.lock().unwrap();
+    let close = g.log[log0.min(g.log.len())..]
+        .iter()
+        .find_map(|l| l.strip_prefix("close ").map(|r| r.split(' ').next().unwrap_or("?").to_string()))
+        .unwrap_or_else(|| "-".into());
+    format!("err:{}{}/close:{}", code, variant, close)
+}
+
+fn server_case(fam: &str, ops: &str) -> String {
+    let env = parse_env(fam);
+    let w = World::new(Side::Server, if env.uni3 { 3 } else { 100 }, 100, None);
     let mut b = h3::server::builder();
-    b.send_grease(false);
+    if !env.grease {
+        b.send_grease(false);
+    }
     let mut conn: h3::server::Connection<SimConn, Bytes> = match poll_once(b.build(SimConn { world: w.clone() })) {
         Poll::Ready(Ok(c)) => c,
         Poll::Ready(Err(e)) => return format!("build-err {}", conn_err(&e)),
         Poll::Pending => return "build-pending".into(),
     };
-    assert!(apply_event(&w, "U2"));
-    assert!(apply_event(&w, "2:c:000400"));
+    peer_other_streams(&w, 2, &env);
+    let mut ctl_delivered = false;
+    if !env.late_ctl {
+        peer_control_stream(&w, 2, &env);
+        ctl_delivered = true;
+    }
     let ctl = w.lock().unwrap().local_streams()[0];
     let mut held: HashMap<u64, h3::server::RequestResolver<SimConn, Bytes>> = HashMap::new();
     let mut groups: Vec<String> = Vec::new();
@@ -149,7 +224,7 @@ fn server_case(ops: &str) -> String {
                 }
                 Poll::Ready(Ok(None)) => answer = Some("none".into()),
                 Poll::Ready(Err(e)) => {
-                    answer = Some(format!("err:{}", code_of(&conn_err(&e))));
+                    answer = Some(err_text(&conn_err(&e), &w, log0));
                     dead = true;
                 }
                 Poll::Pending => answer = Some("pend".into()),
@@ -160,6 +235,10 @@ fn server_case(ops: &str) -> String {
             }
             b'G' => {
                 let id: u64 = arg.parse().unwrap();
+                if !ctl_delivered {
+                    peer_control_stream(&w, 2, &env);
+                    ctl_delivered = true;
+                }
                 assert!(apply_event(&w, &format!("2:c:{}", goaway_frame(id))));
             }
             _ => return "driver-error bad-op".into(),
@@ -201,81 +280,144 @@ fn server_case(ops: &str) -> String {
     format!("ok {}", groups.join(" "))
 }
 
-fn client_case(ops: &str) -> String {
-    let w = World::new(Side::Client, 100, 100, None);
+type Sender = h3::client::SendRequest<SimOpener, Bytes>;
+type ReqOut = (Sender, Result<h3::client::RequestStream<SimBidi<Bytes>, Bytes>, h3::error::StreamError>);
+
+fn client_case(fam: &str, ops: &str) -> String {
+    let env = parse_env(fam);
+    let w = World::new(Side::Client, if env.uni3 { 3 } else { 100 }, 100, None);
     let mut b = h3::client::builder();
-    b.send_grease(false);
-    let (mut conn, mut sender): (h3::client::Connection<SimConn, Bytes>, h3::client::SendRequest<SimOpener, Bytes>) =
+    if !env.grease {
+        b.send_grease(false);
+    }
+    let (mut conn, sender): (h3::client::Connection<SimConn, Bytes>, Sender) =
         match poll_once(b.build(SimConn { world: w.clone() })) {
             Poll::Ready(Ok(c)) => c,
             Poll::Ready(Err(e)) => return format!("build-err {}", conn_err(&e)),
             Poll::Pending => return "build-pending".into(),
         };
-    assert!(apply_event(&w, "U3"));
-    assert!(apply_event(&w, "3:c:000400"));
+    peer_other_streams(&w, 3, &env);
+    let mut ctl_delivered = false;
+    if !env.late_ctl {
+        peer_control_stream(&w, 3, &env);
+        ctl_delivered = true;
+    }
+    let mut sender: Option<Sender> = Some(sender);
+    // a send_request call waiting for a stream: it owns the SendRequest until it completes
+    let mut parked: Option<Pin<Box<dyn Future<Output = ReqOut>>>> = None;
     let mut streams = Vec::new();
     let mut groups: Vec<String> = Vec::new();
     let mut dead = false;
+    let waker = Waker::from(Arc::new(Noop));
     for op in ops.split(',') {
         if dead {
             groups.push(".".into());
             continue;
         }
         let arg = &op[1..];
+        let log0 = w.lock().unwrap().log.len();
         match op.as_bytes()[0] {
             b'g' => {
                 let id: u64 = arg.parse().unwrap();
+                if !ctl_delivered {
+                    peer_control_stream(&w, 3, &env);
+                    ctl_delivered = true;
+                }
                 assert!(apply_event(&w, &format!("3:c:{}", goaway_frame(id))));
                 groups.push(".".into());
             }
+            b'z' => {
+                w.lock().unwrap().bidi_credit = 0;
+                groups.push(".".into());
+            }
+            b'h' => {
+                let n: u64 = arg.parse().unwrap();
+                w.lock().unwrap().grant_bidi(n);
+                groups.push(".".into());
+            }
             b'D' => {
-                let waker = Waker::from(Arc::new(Noop));
                 let mut cx = Context::from_waker(&waker);
                 match conn.poll_close(&mut cx) {
                     Poll::Pending => groups.push("idle".into()),
                     Poll::Ready(e) => {
-                        groups.push(format!("err:{}", code_of(&conn_err(&e))));
+                        groups.push(err_text(&conn_err(&e), &w, log0));
                         dead = true;
                     }
                 }
             }
             b'R' => {
-                let opened0 = w.lock().unwrap().log.iter().filter(|l| l.starts_with("open_bidi")).count();
-                let req = http::Request::builder().method("GET").uri("https://a/").body(()).unwrap();
-                let r = poll_once(sender.send_request(req));
-                let opened: Vec<String> = w
-                    .lock()
-                    .unwrap()
-                    .log
-                    .iter()
-                    .filter(|l| l.starts_with("open_bidi"))
-                    .skip(opened0)
-                    .map(|l| l["open_bidi ".len()..].to_string())
-                    .collect();
-                let mut s = match r {
-                    Poll::Ready(Ok(st)) => {
-                        streams.push(st);
-                        "open".to_string()
+                let mut fut = match parked.take() {
+                    Some(f) => f,
+                    None => {
+                        let mut sd = sender.take().expect("sender");
+                        let req = http::Request::builder().method("GET").uri("https://a/").body(()).unwrap();
+                        Box::pin(async move {
+                            let r = sd.send_request(req).await;
+                            (sd, r)
+                        })
                     }
-                    Poll::Ready(Err(h3::error::StreamError::RemoteClosing)) => "closing".to_string(),
-                    Poll::Ready(Err(e)) => format!("reqerr:{}", stream_err(&e)),
-                    Poll::Pending => "reqpending".to_string(),
                 };
-                for o in opened {
-                    s.push_str(&format!(":{}", o));
-                }
-                groups.push(s);
+                let mut cx = Context::from_waker(&waker);
+                let r = fut.as_mut().poll(&mut cx);
+                let (opened, reset): (Vec<u64>, Option<String>) = {
+                    let g = w.lock().unwrap();
+                    let opened: Vec<u64> = g.log[log0..]
+                        .iter()
+                        .filter_map(|l| l.strip_prefix("open_bidi ").map(|r| r.parse().unwrap()))
+                        .collect();
+                    let reset = g.log[log0..].iter().find_map(|l| {
+                        let ws: Vec<&str> = l.split(' ').collect();
+                        if ws.len() == 3 && ws[0] == "reset" && opened.contains(&ws[1].parse().unwrap_or(u64::MAX)) {
+                            Some(ws[2].to_string())
+                        } else {
+                            None
+                        }
+                    });
+                    (opened, reset)
+                };
+                let written: usize = { let g = w.lock().unwrap(); opened.iter().map(|id| g.tx_of(*id).len()).sum() };
+                let text = match r {
+                    Poll::Pending => {
+                        parked = Some(fut);
+                        if opened.is_empty() { "parked".to_string() } else { format!("parked-after-open:{}", opened[0]) }
+                    }
+                    Poll::Ready((sd, res)) => {
+                        sender = Some(sd);
+                        match res {
+                            Ok(st) => {
+                                streams.push(st);
+                                if opened.len() == 1 && written > 0 && reset.is_none() {
+                                    format!("open:{}", opened[0])
+                                } else {
+                                    format!("open?:{:?}:{}:{:?}", opened, written, reset)
+                                }
+                            }
+                            Err(h3::error::StreamError::RemoteClosing) => {
+                                if opened.is_empty() {
+                                    "closing".to_string()
+                                } else if written == 0 {
+                                    format!("cancelled:{}:{}", opened[0], reset.unwrap_or_else(|| "-".into()))
+                                } else {
+                                    format!("closing-after-write:{}:{}", opened[0], written)
+                                }
+                            }
+                            Err(e) => format!("reqerr:{}", stream_err(&e)),
+                        }
+                    }
+                };
+                groups.push(text);
             }
             _ => return "driver-error bad-op".into(),
         }
     }
+    drop(parked);
     format!("ok {}", groups.join(" "))
 }
 
 fn main() {
     run_lines(|ws| match ws {
-        ["goaway", ops] => server_case(ops),
-        ["cgoaway", ops] => client_case(ops),
+        [fam, ops] if fam.starts_with("goaway") => server_case(fam, ops),
+        [fam, ops] if fam.starts_with("cgoaway") => client_case(fam, ops),
         _ => "driver-error unknown-case".into(),
     });
 }
